@@ -144,6 +144,42 @@ def tree2(pub, d0, d1):
     return tree_control_blocks(pub, (0, 1), [d0, d1])
 
 
+def tree2_dup(pub, d0):
+    return tree_control_blocks(pub, (0, 1), [d0, d0])
+
+
+def tree3a_dup01(pub, d0, d2):
+    return tree_control_blocks(pub, ((0, 1), 2), [d0, d0, d2])
+
+
+def tree3a_dup02(pub, d0, d1):
+    return tree_control_blocks(pub, ((0, 1), 2), [d0, d1, d0])
+
+
+def tree3a_dup12(pub, d0, d1):
+    return tree_control_blocks(pub, ((0, 1), 2), [d0, d1, d1])
+
+
+def tree3a_dup012(pub, d0):
+    return tree_control_blocks(pub, ((0, 1), 2), [d0, d0, d0])
+
+
+def tree3b_dup01(pub, d0, d2):
+    return tree_control_blocks(pub, (0, (1, 2)), [d0, d0, d2])
+
+
+def tree3b_dup02(pub, d0, d1):
+    return tree_control_blocks(pub, (0, (1, 2)), [d0, d1, d0])
+
+
+def tree3b_dup12(pub, d0, d1):
+    return tree_control_blocks(pub, (0, (1, 2)), [d0, d1, d1])
+
+
+def tree3b_dup012(pub, d0):
+    return tree_control_blocks(pub, (0, (1, 2)), [d0, d0, d0])
+
+
 def tree3a(pub, d0, d1, d2):
     return tree_control_blocks(pub, ((0, 1), 2), [d0, d1, d2])
 
